@@ -101,7 +101,10 @@ def check_pooling(run, A):
                 for conds, leaf in gamma_paths(part):
                     on = [pol for (ct, pol) in conds.values() if strip_views(ct).op == 'param' and strip_views(ct).args[0] == 'average_channels']
                     leaf0 = strip_views(leaf)
-                    red = is_call_to(leaf0, 'numpy.mean', 'method:mean', 'numpy.average')
+                    # np.sum(p, axis) / D with D the number of sensors is the mean
+                    if leaf0.op == 'binop' and leaf0.args[0] == 'Div' and is_call_to(strip_views(leaf0.args[1]), 'numpy.sum') and _is_sensor_count(leaf0.args[2]):
+                        leaf0 = strip_views(leaf0.args[1])
+                    red = is_call_to(leaf0, 'numpy.mean', 'method:mean', 'numpy.average', 'numpy.sum') and (is_call_to(leaf0, 'numpy.mean', 'numpy.average') or leaf0 is not strip_views(leaf))
                     if on and on[0]:
                         ax = call_arg(leaf0, 1, 'axis') if red else None
                         axs = possible_consts(ax) if ax is not None else None
@@ -139,6 +142,17 @@ def check_pooling(run, A):
                   f'a ratio in dB is reduced over axis {sorted(axs, key=str)}: sensors must be pooled in the power domain (1/SDR = 1/SIR + 1/SNR needs one common power triple)',
                   construct=f'ORDER::{q}::db-reduced-over-sensors')
     run.count('C19 reductions of dB values examined', m)
+
+
+def _is_sensor_count(t):
+    """D of `K, D, T = images.shape` / images.shape[1] / images.shape[-2] / noise.shape[0]"""
+    t = strip_views(t)
+    if _dim_of(t, 'images', 1):
+        return True
+    if t.op == 'sub' and t.args[0].op == 'attr' and t.args[0].args[1] == 'shape' and strip_views(t.args[0].args[0]).op == 'param':
+        pn, ix = strip_views(t.args[0].args[0]).args[0], const_val(t.args[1])
+        return (pn == 'images' and ix in (1, -2)) or (pn == 'noise' and ix in (0, -2))
+    return False
 
 
 def data_derives_call(t, callee):
@@ -279,6 +293,18 @@ def check_selection(run, A):
             continue
         Lp = idx[0]
         cp = strip_views(call_arg(val, 0))
+        if cp.op == 'sub':
+            # vectorised form: sum(S[arange(K_source), candidate]) with candidate the p-th enumerated selection
+            base, items = index_chain(cp)
+            if _power_of(base, 'image_contribution') and len(items) == 2 and isinstance(items[0], T) and isinstance(items[1], T):
+                ar = strip_views(items[0])
+                ok_ar = is_call_to(ar, 'numpy.arange') and len(call_parts(ar)[1]) == 1 and not call_parts(ar)[2] and _dim_of(call_arg(ar, 0), 'image_contribution', 0)
+                pb, pit = index_chain(items[1])
+                if ok_ar and len(pit) == 1 and pit[0] == ('index', Lp):
+                    sel_arr = pb
+                    mp_ok = bool(perms and any(x is perms[0] for x in walk_terms(sel_arr)))
+                    mp_def = node
+            continue
         if cp.op != 'comp':
             continue
         kind, elts, iters, conds = cp.args
